@@ -11,7 +11,9 @@ use std::path::{Path, PathBuf};
 use std::sync::atomic::{AtomicU64, Ordering};
 use std::sync::{Arc, Mutex};
 
-use mithril_cardano_node_chain::chain_importer::{CardanoChainDataImporter, ChainDataPruner};
+use mithril_cardano_node_chain::chain_importer::{
+    CardanoChainDataImporter, ChainDataImporter, ChainDataImporterByChunk, ChainDataImporterWithPruner, ChainDataPruner, ChainDataStore,
+};
 use mithril_cardano_node_chain::chain_scanner::CardanoBlockScanner;
 use mithril_common::crypto_helper::MKTreeStoreInMemory;
 use mithril_common::entities::{BlockNumber, BlockNumberOffset, ProtocolMessagePartKey};
@@ -31,6 +33,94 @@ use crate::node::{Server, SyncReader};
 pub struct Cfg {
     pub max_roll_forwards: usize,
     pub pallas_agency: bool,
+    /// None: the importer is used undecorated (the aggregator's wiring); Some(n): the signer's wiring
+    /// `ChainDataImporterByChunk(n)` -> `ChainDataImporterWithPruner(no pruning)` -> importer
+    #[serde(default)]
+    pub chunk: Option<u64>,
+}
+
+/// Where the process dies inside `CardanoChainDataImporter::import` (service.rs: blocks, optimize,
+/// block range roots, legacy block range roots, optimize are separate, separately committed steps)
+#[derive(Clone, Copy, Debug, PartialEq, Eq, serde::Serialize, serde::Deserialize)]
+pub enum CrashPoint {
+    /// blocks and transactions are committed, no range root step has run
+    BeforeRangeRoots,
+    /// the new range roots are stored, the legacy ones are not
+    BeforeLegacyRangeRoots,
+}
+
+/// A transparent tap on the `ChainDataStore` the importer writes through: it forwards every call to
+/// the real repository, except that once the armed crash point is reached the "process is dead":
+/// that call and every later one fail without touching the database.
+pub struct CrashPointStore {
+    inner: Arc<SignerCardanoChainDataRepository>,
+    server: Arc<Mutex<Server>>,
+    armed: Mutex<Option<CrashPoint>>,
+    dead: std::sync::atomic::AtomicBool,
+}
+
+impl CrashPointStore {
+    fn gate(&self, reached: Option<CrashPoint>) -> mithril_common::StdResult<()> {
+        if reached.is_some() && *self.armed.lock().unwrap() == reached {
+            self.dead.store(true, Ordering::SeqCst);
+        }
+        if self.dead.load(Ordering::SeqCst) {
+            return Err(anyhow::anyhow!("harness: the process was killed at this point"));
+        }
+        Ok(())
+    }
+}
+
+#[async_trait::async_trait]
+impl ChainDataStore for CrashPointStore {
+    async fn get_highest_beacon(&self) -> mithril_common::StdResult<Option<mithril_common::entities::ChainPoint>> {
+        self.gate(None)?;
+        self.inner.get_highest_beacon().await
+    }
+    async fn get_highest_block_range(&self) -> mithril_common::StdResult<Option<mithril_common::entities::BlockRange>> {
+        self.gate(Some(CrashPoint::BeforeRangeRoots))?;
+        self.inner.get_highest_block_range().await
+    }
+    async fn get_highest_legacy_block_range(&self) -> mithril_common::StdResult<Option<mithril_common::entities::BlockRange>> {
+        self.gate(Some(CrashPoint::BeforeLegacyRangeRoots))?;
+        self.inner.get_highest_legacy_block_range().await
+    }
+    async fn store_blocks_and_transactions(&self, b: Vec<mithril_common::entities::CardanoBlockWithTransactions>) -> mithril_common::StdResult<()> {
+        self.gate(None)?;
+        let last = b.last().map(|x| (*x.slot_number, x.block_hash.clone()));
+        self.inner.store_blocks_and_transactions(b).await?;
+        if let Some((slot, hash)) = last {
+            self.server.lock().unwrap().served.push(crate::node::Served::Stored { slot, hash });
+        }
+        Ok(())
+    }
+    async fn get_blocks_and_transactions_in_range(
+        &self,
+        range: std::ops::Range<BlockNumber>,
+    ) -> mithril_common::StdResult<std::collections::BTreeSet<mithril_common::entities::CardanoBlockTransactionMkTreeNode>> {
+        self.gate(None)?;
+        self.inner.get_blocks_and_transactions_in_range(range).await
+    }
+    async fn get_transactions_in_range(&self, range: std::ops::Range<BlockNumber>) -> mithril_common::StdResult<Vec<mithril_common::entities::CardanoTransaction>> {
+        self.gate(None)?;
+        self.inner.get_transactions_in_range(range).await
+    }
+    async fn store_block_range_roots(&self, r: Vec<(mithril_common::entities::BlockRange, mithril_common::crypto_helper::MKTreeNode)>) -> mithril_common::StdResult<()> {
+        self.gate(None)?;
+        self.inner.store_block_range_roots(r).await
+    }
+    async fn store_legacy_block_range_roots(&self, r: Vec<(mithril_common::entities::BlockRange, mithril_common::crypto_helper::MKTreeNode)>) -> mithril_common::StdResult<()> {
+        self.gate(None)?;
+        self.inner.store_legacy_block_range_roots(r).await
+    }
+    async fn remove_rolled_chain_data_and_block_range(&self, slot: mithril_common::entities::SlotNumber) -> mithril_common::StdResult<()> {
+        self.gate(None)?;
+        self.inner.remove_rolled_chain_data_and_block_range(slot).await
+    }
+    async fn optimize(&self) -> mithril_common::StdResult<()> {
+        self.gate(None)?;
+        ChainDataStore::optimize(&*self.inner).await
+    }
 }
 
 fn logger() -> slog::Logger {
@@ -82,6 +172,7 @@ fn builder(path: &Path) -> ConnectionBuilder {
 /// `last_polled_point`), chain reader connection, both signable builders.
 pub struct Sut {
     pub repo: Arc<SignerCardanoChainDataRepository>,
+    store: Arc<CrashPointStore>,
     blocks_builder: CardanoBlocksTransactionsSignableBuilder<MKTreeStoreInMemory>,
     legacy_builder: CardanoTransactionsSignableBuilder<MKTreeStoreInMemory>,
 }
@@ -91,16 +182,28 @@ impl Sut {
         server.lock().unwrap().disconnect();
         let pool = Arc::new(builder(db).build_pool(1).expect("open database"));
         let repo = Arc::new(SignerCardanoChainDataRepository::new(pool));
-        let reader = SyncReader { server, pallas_agency: cfg.pallas_agency };
+        let reader = SyncReader { server: server.clone(), pallas_agency: cfg.pallas_agency };
         let scanner = Arc::new(CardanoBlockScanner::new(
             Arc::new(tokio::sync::Mutex::new(reader)),
             cfg.max_roll_forwards,
             logger(),
         ));
-        let importer = Arc::new(CardanoChainDataImporter::new(scanner, repo.clone(), logger()));
+        let store = Arc::new(CrashPointStore { inner: repo.clone(), server, armed: Mutex::new(None), dead: std::sync::atomic::AtomicBool::new(false) });
+        let importer: Arc<dyn ChainDataImporter> = Arc::new(CardanoChainDataImporter::new(scanner, store.clone(), logger()));
+        let importer: Arc<dyn ChainDataImporter> = match cfg.chunk {
+            None => importer,
+            // as mithril-signer's DependenciesBuilder::build (pruning is an explicit event of the exploration)
+            Some(n) => Arc::new(ChainDataImporterByChunk::new(
+                repo.clone(),
+                Arc::new(ChainDataImporterWithPruner::new(None, repo.clone(), importer, logger())),
+                BlockNumber(n),
+                logger(),
+            )),
+        };
         let adapter = Arc::new(SignerChainDataImporter::new(importer));
         Sut {
             repo: repo.clone(),
+            store,
             blocks_builder: CardanoBlocksTransactionsSignableBuilder::new(adapter.clone(), repo.clone()),
             legacy_builder: CardanoTransactionsSignableBuilder::new(adapter, repo),
         }
@@ -149,6 +252,17 @@ impl Sut {
         .await
         .map_err(|e| format!("{e:#}"))?;
         map.compute_root().map(|r| r.to_hex()).map_err(|e| format!("{e:#}"))
+    }
+
+    /// the process will die when the next import reaches this point
+    pub fn arm_crash(&self, at: CrashPoint) {
+        *self.store.armed.lock().unwrap() = Some(at);
+    }
+    pub fn crashed(&self) -> bool {
+        self.store.dead.load(Ordering::SeqCst)
+    }
+    pub fn disarm_crash(&self) {
+        *self.store.armed.lock().unwrap() = None;
     }
 
     pub async fn prune(&self, keep: u64) -> Result<(), String> {
